@@ -45,7 +45,7 @@ if [ -d $src/$demo ]; then
     pkgdir=$(dirname $tf)
     # in-package demos (package name of an existing package) are copied next to that package as their README says
     target=$(grep -ho "cp [^ ]* [^ ]*pkg/[^ ]*" out/$demo/README.md 2>/dev/null | head -1 | awk '{print $3}')
-    if [ -n "$target" ]; then tdir=$target; [ -d "$tdir" ] || tdir=$(dirname $target); cp $tf $tdir/; pkgdir=$tdir; fi
+    if [ -n "$target" ]; then tdir=$target; case $target in */) mkdir -p $target;; esac; [ -d "$tdir" ] || tdir=$(dirname $target); cp $tf $tdir/; pkgdir=${tdir%/}; fi
     go test -vet=off -count=1 ./$pkgdir/ -run 'C[0-9]|Test' > /tmp/cfd.$$.log 2>&1; with=$?
     git apply -R $d/patch.diff
     go test -vet=off -count=1 ./$pkgdir/ -run 'C[0-9]|Test' > /tmp/cfd2.$$.log 2>&1; without=$?
